@@ -88,7 +88,12 @@ class ThermochemGroupAdditive(ThermochemBase):
     get_HoRT.__doc__ = ThermochemBase.get_HoRT.__doc__
 
     def get_Selements(self):
-        mol = Chem.rdmolops.AddHs(Chem.MolFromSmiles(self.name))
+        # the structure was given to GetDescriptors as a SMILES string or as
+        # a molecule object
+        if isinstance(self.name, Chem.Mol):
+            mol = Chem.rdmolops.AddHs(self.name)
+        else:
+            mol = Chem.rdmolops.AddHs(Chem.MolFromSmiles(self.name))
         atoms = mol.GetAtoms()
         S_ele = 0
         for atom in atoms:
